@@ -1,5 +1,53 @@
 /* C07 -- task body state machine: exact iff-contracts on the real body.c */
 #include "prelude.h"
+
+/* ---- trusted base of this unit (see plan "trusted") ----
+ * uthash is not verified.  HASH_ADD_INT (used inline by body_create and
+ * task_create) is rebound to a ghost log: the n-th insertion records the
+ * address of the head pointer, the item and its key; an empty table's head
+ * becomes the item (what uthash does), a non-empty head is left alone.
+ * HASH_FIND wrappers (body_find, task_find, task_type_find) are replaced by
+ * assumed one-cell map contracts (c_body_find, ...). */
+#include "uthash.h"
+unsigned g_hadd_n;          /* number of hash insertions so far */
+void *g_hadd_head;          /* &head of the last insertion */
+void *g_hadd_item;          /* item of the last insertion */
+uint32_t g_hadd_key;        /* key of the last insertion */
+#undef HASH_ADD_INT
+#define HASH_ADD_INT(head, field, add) { g_hadd_n++; g_hadd_head = (void *) &(head); \
+	g_hadd_item = (void *) (add); g_hadd_key = (add)->field; if ((head) == NULL) (head) = (add); }
+#define HLOG_PRE (g_hadd_n < 1000000u)
+#define HLOG_FRAME g_hadd_n, g_hadd_head, g_hadd_item, g_hadd_key
+
+/* lower-layer failures (calloc returns NULL, snprintf truncates): counted, so
+ * that "refused although legal" can be tied to them exactly */
+unsigned g_lowfail;
+#define LOW_PRE (g_lowfail < 1000000u)
+void *calloc(size_t n, size_t sz)
+{
+	if (nondet_bool()) { g_lowfail++; return NULL; }
+	size_t tot = n * sz;
+	if (n != 0 && tot / n != sz) { g_lowfail++; return NULL; }
+	char *p = malloc(tot);
+	if (p == NULL) { g_lowfail++; return NULL; }
+	if (tot > 0) __CPROVER_array_set(p, 0);
+	return p;
+}
+static inline int c07_snprintf(char *s, size_t n)
+{
+	int r = verif_snprintf(s, n);
+	if (n > 0 && (size_t) r >= n) g_lowfail++;   /* output truncated */
+	return r;
+}
+#undef snprintf
+#define snprintf(s, n, ...) c07_snprintf((s), (n))
+/* task_get_id lives in task.c: outside body.c.  When this file is included by
+ * c07_task.c the real one is used instead (C07_HAVE_TASK_C). */
+#ifndef C07_HAVE_TASK_C
+struct task;
+uint32_t task_get_id(struct task *task) { (void) task; uint32_t r; return r; }
+#endif
+
 #include "body.c"          /* the real /repo/src/emu/body.c */
 
 /* ---- spec predicates (ghost, pure) ---- */
@@ -12,37 +60,40 @@
  * the concrete call to replay natively */
 int w_state, w_flags, w_has_stack, w_own_stack, w_is_top, w_top_state, w_top_flags, w_has_top, w_null;
 
-#define BIND_WITNESS(stack, body) ( \
-	w_null == ((body) == NULL) && \
-	((body) == NULL || ( \
-	w_state == (int)(body)->state && w_flags == (body)->flags && \
-	w_has_stack == ((body)->stack != NULL) && w_own_stack == ((body)->stack == (stack)) && \
-	w_is_top == ((stack)->top == (body)))) && \
-	w_has_top == ((stack)->top != NULL) && \
-	((stack)->top == NULL || (w_top_state == (int)(stack)->top->state && w_top_flags == (stack)->top->flags)))
+#define BIND_WITNESS(S_, B_) ( \
+	w_null == ((B_) == NULL) && \
+	((B_) == NULL || ( \
+	w_state == (int)(B_)->state && w_flags == (B_)->flags && \
+	w_has_stack == ((B_)->stack != NULL) && w_own_stack == ((B_)->stack == (S_)) && \
+	w_is_top == ((S_)->top == (B_)))) && \
+	w_has_top == ((S_)->top != NULL) && \
+	((S_)->top == NULL || (w_top_state == (int)(S_)->top->state && w_top_flags == (S_)->top->flags)))
 
 /* utlist doubly-linked list: head->prev is the tail, tail->next is NULL.
  * Shape of the heap the four transitions run on: a stack, a body (maybe NULL),
  * and a top element which is either absent, the body itself, or another body
  * whose own links are a well-formed utlist head (prev of head = tail). */
-#define SHAPE(stack, body) \
-	__CPROVER_is_fresh(stack, sizeof(*stack)) && \
-	((body) == NULL || __CPROVER_is_fresh(body, sizeof(*body))) && \
-	((stack)->top == NULL || ((body) != NULL && __CPROVER_pointer_equals((stack)->top, (body))) || \
-		__CPROVER_is_fresh((stack)->top, sizeof(*(stack)->top))) && \
-	((body) == NULL || BODY_WF(body)) && \
-	((stack)->top == NULL || (BODY_WF((stack)->top) && (stack)->top->stack == (stack))) && \
-	((body) == NULL || (stack)->top != (body) || (body)->stack == (stack)) && \
-	((stack)->top == NULL || (stack)->top->next != NULL || __CPROVER_pointer_equals((stack)->top->prev, (stack)->top)) && \
-	((stack)->top == NULL || (stack)->top->next == NULL || \
-		(__CPROVER_is_fresh((stack)->top->next, sizeof(struct body)) && \
-		 (__CPROVER_pointer_equals((stack)->top->prev, (stack)->top->next) || __CPROVER_is_fresh((stack)->top->prev, sizeof(struct body)))))
+#define SHAPE(S_, B_) \
+	__CPROVER_is_fresh(S_, sizeof(*(S_))) && SHAPE_REST(S_, B_)
+/* the same without the allocation of the stack object itself (c07_task.c: the
+ * body stack is the first member of an already allocated task stack) */
+#define SHAPE_REST(S_, B_) \
+	((B_) == NULL || __CPROVER_is_fresh(B_, sizeof(*(B_)))) && \
+	((S_)->top == NULL || ((B_) != NULL && __CPROVER_pointer_equals((S_)->top, (B_))) || \
+		__CPROVER_is_fresh((S_)->top, sizeof(*(S_)->top))) && \
+	((B_) == NULL || BODY_WF(B_)) && \
+	((S_)->top == NULL || (BODY_WF((S_)->top) && (S_)->top->stack == (S_))) && \
+	((B_) == NULL || (S_)->top != (B_) || (B_)->stack == (S_)) && \
+	((S_)->top == NULL || (S_)->top->next != NULL || __CPROVER_pointer_equals((S_)->top->prev, (S_)->top)) && \
+	((S_)->top == NULL || (S_)->top->next == NULL || \
+		(__CPROVER_is_fresh((S_)->top->next, sizeof(struct body)) && \
+		 (__CPROVER_pointer_equals((S_)->top->prev, (S_)->top->next) || __CPROVER_is_fresh((S_)->top->prev, sizeof(struct body)))))
 
 /* ---------------- body_execute ---------------- */
-#define LEGAL_EXECUTE(stack, body) ( (body) != NULL && \
-	((body)->state == BODY_ST_CREATED || ((body)->state == BODY_ST_DEAD && ((body)->flags & BODY_FLAG_RESURRECT))) && \
-	(body)->stack == NULL && \
-	((stack)->top == NULL || (stack)->top->state != BODY_ST_RUNNING || ((stack)->top->flags & BODY_FLAG_RELAX_NESTING)) )
+#define LEGAL_EXECUTE(S_, B_) ( (B_) != NULL && \
+	((B_)->state == BODY_ST_CREATED || ((B_)->state == BODY_ST_DEAD && ((B_)->flags & BODY_FLAG_RESURRECT))) && \
+	(B_)->stack == NULL && \
+	((S_)->top == NULL || (S_)->top->state != BODY_ST_RUNNING || ((S_)->top->flags & BODY_FLAG_RELAX_NESTING)) )
 
 int g_legal;   /* value of the legality predicate in the pre-state */
 struct body *g_old_top;
@@ -82,8 +133,8 @@ void h_body_execute(void)
 }
 
 /* ---------------- body_pause ---------------- */
-#define LEGAL_PAUSE(stack, body) ( (body) != NULL && ((body)->flags & BODY_FLAG_PAUSE) && \
-	(body)->state == BODY_ST_RUNNING && (body)->stack == (stack) && (stack)->top == (body) )
+#define LEGAL_PAUSE(S_, B_) ( (B_) != NULL && ((B_)->flags & BODY_FLAG_PAUSE) && \
+	(B_)->state == BODY_ST_RUNNING && (B_)->stack == (S_) && (S_)->top == (B_) )
 
 int c_body_pause(struct body_stack *stack, struct body *body)
 __CPROVER_requires(SHAPE(stack, body))
@@ -109,8 +160,8 @@ void h_body_pause(void)
 }
 
 /* ---------------- body_resume ---------------- */
-#define LEGAL_RESUME(stack, body) ( (body) != NULL && \
-	(body)->state == BODY_ST_PAUSED && (body)->stack == (stack) && (stack)->top == (body) )
+#define LEGAL_RESUME(S_, B_) ( (B_) != NULL && \
+	(B_)->state == BODY_ST_PAUSED && (B_)->stack == (S_) && (S_)->top == (B_) )
 
 int c_body_resume(struct body_stack *stack, struct body *body)
 __CPROVER_requires(SHAPE(stack, body))
@@ -135,8 +186,8 @@ void h_body_resume(void)
 }
 
 /* ---------------- body_end ---------------- */
-#define LEGAL_END(stack, body) ( (body) != NULL && \
-	(body)->state == BODY_ST_RUNNING && (body)->stack == (stack) && (stack)->top == (body) )
+#define LEGAL_END(S_, B_) ( (B_) != NULL && \
+	(B_)->state == BODY_ST_RUNNING && (B_)->stack == (S_) && (S_)->top == (B_) )
 
 struct body *g_old_next;
 
@@ -164,4 +215,170 @@ void h_body_end(void)
 	if (r == 0) REACH("end accepted");
 	if (r == 0 && g_old_next != NULL) REACH("end accepted with a body below");
 	if (r != 0 && !w_null) REACH("end refused");
+}
+
+/* ======================================================================
+ * Replaceable, self-contained contracts (HOWTO "Ghost bindings vs.
+ * replacement"): no pre-state ghosts, only __CPROVER_old(simple lvalue),
+ * parameters and memory outside the frame.  Each one is enforced against
+ * the real body in its own group and replaces the call in task.c groups.
+ * They require body != NULL (task.c never passes NULL; the NULL case is
+ * covered by c_body_*).
+ * ====================================================================== */
+#define RV __CPROVER_return_value
+#define OLD(e) __CPROVER_old(e)
+/* counters: replaceable contracts accept any start value below 2^30 and bound
+ * their growth, so that a caller's counters cannot wrap between two calls */
+#define DIAG_PRE_R (g_err < 0x40000000u)
+#define HLOG_PRE_R (g_hadd_n < 0x40000000u)
+#define LOW_PRE_R  (g_lowfail < 0x40000000u)
+#define ERR_BOUNDED_N(n) (g_err >= OLD(g_err) && g_err - OLD(g_err) <= (n))
+#define ERR_BOUNDED ERR_BOUNDED_N(4u)
+#define LOW_BOUNDED (g_lowfail >= OLD(g_lowfail) && g_lowfail - OLD(g_lowfail) <= 2u)
+
+#define R_LEGAL_EXECUTE ( \
+	(OLD(body->state) == BODY_ST_CREATED || (OLD(body->state) == BODY_ST_DEAD && (body->flags & BODY_FLAG_RESURRECT))) && \
+	OLD(body->stack) == NULL && \
+	(OLD(stack->top) == NULL || (OLD(stack->top) != body && \
+		(OLD(stack->top)->state != BODY_ST_RUNNING || (OLD(stack->top)->flags & BODY_FLAG_RELAX_NESTING)))))
+
+int cr_body_execute(struct body_stack *stack, struct body *body)
+__CPROVER_requires(body != NULL && SHAPE(stack, body))
+__CPROVER_requires(body->iteration < 0x7fffffffffffffffL && DIAG_PRE_R)
+__CPROVER_assigns(stack->top, DIAG_FRAME)
+__CPROVER_assigns(body->state, body->iteration, body->stack, body->next, body->prev)
+__CPROVER_assigns(stack->top != NULL: stack->top->prev)
+__CPROVER_ensures((RV == 0) == R_LEGAL_EXECUTE)
+__CPROVER_ensures((RV == 0 || RV == -1) && ERR_BOUNDED)
+__CPROVER_ensures(RV != 0 || (
+	body->state == BODY_ST_RUNNING && body->stack == stack && stack->top == body &&
+	body->next == OLD(stack->top) &&
+	body->iteration == OLD(body->iteration) + (OLD(body->state) == BODY_ST_DEAD ? 1 : 0)))
+/* refused: the stack is untouched, the body stays off/on its stack; its state is
+ * unchanged except that a dead resurrectable body may already read Created */
+__CPROVER_ensures(RV == 0 || (stack->top == OLD(stack->top) && body->stack == OLD(body->stack) &&
+	g_err > OLD(g_err) && BODY_WF(body) &&
+	(body->state == OLD(body->state) ||
+	 (OLD(body->state) == BODY_ST_DEAD && (body->flags & BODY_FLAG_RESURRECT) && body->state == BODY_ST_CREATED))))
+;
+
+void h_r_body_execute(void)
+{
+	struct body_stack *stack;
+	struct body *body;
+	int r = body_execute(stack, body);
+	if (r == 0) REACH("execute accepted");
+	if (r != 0) REACH("execute refused");
+}
+
+int cr_body_pause(struct body_stack *stack, struct body *body)
+__CPROVER_requires(body != NULL && SHAPE(stack, body) && DIAG_PRE_R)
+__CPROVER_assigns(body->state, DIAG_FRAME)
+__CPROVER_ensures((RV == 0) == ((body->flags & BODY_FLAG_PAUSE) && OLD(body->state) == BODY_ST_RUNNING &&
+	body->stack == stack && stack->top == body))
+__CPROVER_ensures((RV == 0 || RV == -1) && ERR_BOUNDED)
+__CPROVER_ensures(RV != 0 || body->state == BODY_ST_PAUSED)
+__CPROVER_ensures(RV == 0 || (body->state == OLD(body->state) && g_err > OLD(g_err)))
+;
+
+void h_r_body_pause(void)
+{
+	struct body_stack *stack;
+	struct body *body;
+	int r = body_pause(stack, body);
+	if (r == 0) REACH("pause accepted");
+	if (r != 0) REACH("pause refused");
+}
+
+int cr_body_resume(struct body_stack *stack, struct body *body)
+__CPROVER_requires(body != NULL && SHAPE(stack, body) && DIAG_PRE_R)
+__CPROVER_assigns(body->state, DIAG_FRAME)
+__CPROVER_ensures((RV == 0) == (OLD(body->state) == BODY_ST_PAUSED && body->stack == stack && stack->top == body))
+__CPROVER_ensures((RV == 0 || RV == -1) && ERR_BOUNDED)
+__CPROVER_ensures(RV != 0 || body->state == BODY_ST_RUNNING)
+__CPROVER_ensures(RV == 0 || (body->state == OLD(body->state) && g_err > OLD(g_err)))
+;
+
+void h_r_body_resume(void)
+{
+	struct body_stack *stack;
+	struct body *body;
+	int r = body_resume(stack, body);
+	if (r == 0) REACH("resume accepted");
+	if (r != 0) REACH("resume refused");
+}
+
+int cr_body_end(struct body_stack *stack, struct body *body)
+__CPROVER_requires(body != NULL && SHAPE(stack, body) && DIAG_PRE_R)
+__CPROVER_assigns(stack->top, DIAG_FRAME)
+__CPROVER_assigns(body->state, body->stack)
+__CPROVER_assigns(stack->top == body && body->next != NULL: body->next->prev)
+__CPROVER_ensures((RV == 0) == (OLD(body->state) == BODY_ST_RUNNING && OLD(body->stack) == stack && OLD(stack->top) == body))
+__CPROVER_ensures((RV == 0 || RV == -1) && ERR_BOUNDED)
+/* accepted: dead, off the thread, the body below (body->next, outside the frame) is the new top */
+__CPROVER_ensures(RV != 0 || (body->state == BODY_ST_DEAD && body->stack == NULL && stack->top == body->next))
+__CPROVER_ensures(RV == 0 || (stack->top == OLD(stack->top) && body->state == OLD(body->state) &&
+	body->stack == OLD(body->stack) && g_err > OLD(g_err)))
+;
+
+void h_r_body_end(void)
+{
+	struct body_stack *stack;
+	struct body *body;
+	int r = body_end(stack, body);
+	if (r == 0) REACH("end accepted");
+	if (r != 0) REACH("end refused");
+}
+
+/* ---------------- body_find: ASSUMED one-cell map contract ----------------
+ * The abstract hash map is observed at one key (g_bf_info, g_bf_id); its value
+ * there is g_bf_body (NULL = absent).  The requires is asserted at every call
+ * site, so callers are proved to look up exactly the observed key. */
+struct body_info *g_bf_info;
+uint32_t g_bf_id;
+struct body *g_bf_body;
+
+struct body *c_body_find(struct body_info *info, uint32_t body_id)
+__CPROVER_requires(info == g_bf_info && body_id == g_bf_id)
+__CPROVER_assigns()
+__CPROVER_ensures(__CPROVER_pointer_equals(RV, g_bf_body))
+;
+
+/* ---------------- body_create ----------------
+ * created exactly when id != 0, the id is not yet in the map, the task is given
+ * and no lower layer (calloc, snprintf) failed; the new body is Created, off any
+ * stack, iteration 0, with exactly the given flags and task, and is inserted in
+ * the map under its id. */
+struct body *cr_body_create(struct body_info *info, struct task *task, uint32_t body_id, int flags)
+__CPROVER_requires(task == NULL || __CPROVER_is_fresh(task, sizeof(*task)))
+__CPROVER_requires((task != NULL && __CPROVER_pointer_equals(info, &task->body_info)) || __CPROVER_is_fresh(info, sizeof(*info)))
+__CPROVER_requires(g_bf_info == info && g_bf_id == body_id)
+__CPROVER_requires(DIAG_PRE_R && HLOG_PRE_R && LOW_PRE_R)
+__CPROVER_assigns(info->bodies, DIAG_FRAME, HLOG_FRAME, g_lowfail)
+__CPROVER_ensures((RV != NULL) == (body_id != 0 && g_bf_body == NULL && task != NULL && g_lowfail == OLD(g_lowfail)))
+__CPROVER_ensures(RV == NULL || (__CPROVER_is_fresh(RV, sizeof(struct body)) &&
+	RV->id == body_id && RV->state == BODY_ST_CREATED && RV->flags == flags && RV->stack == NULL &&
+	RV->iteration == 0 && RV->task == task && RV->next == NULL && RV->prev == NULL))
+__CPROVER_ensures(RV == NULL || (g_hadd_n == OLD(g_hadd_n) + 1 && __CPROVER_pointer_equals(g_hadd_item, (void *) RV) && g_hadd_key == body_id &&
+	g_hadd_head == (void *) &info->bodies &&
+	((OLD(info->bodies) == NULL && info->bodies == RV) || (OLD(info->bodies) != NULL && info->bodies == OLD(info->bodies)))))
+__CPROVER_ensures(RV != NULL || (g_err > OLD(g_err) && info->bodies == OLD(info->bodies) && g_hadd_n == OLD(g_hadd_n)))
+__CPROVER_ensures(ERR_BOUNDED && LOW_BOUNDED)
+;
+
+void h_body_create(void)
+{
+	struct body_info *info;
+	struct task *task;
+	uint32_t body_id;
+	int flags;
+	/* the cell value: absent, or some body */
+	struct body *present = nondet_bool() ? NULL : malloc(sizeof(struct body));
+	g_bf_body = present;
+	struct body *b = body_create(info, task, body_id, flags);
+	if (b != NULL) REACH("body created");
+	if (b != NULL && flags == (BODY_FLAG_PAUSE | BODY_FLAG_RESURRECT)) REACH("body created with PAUSE|RESURRECT");
+	if (b == NULL && body_id == 0) REACH("id 0 refused");
+	if (b == NULL && present != NULL) REACH("duplicate id refused");
+	if (b == NULL && body_id != 0 && present == NULL) REACH("refused by a lower layer or missing task");
 }
